@@ -8,6 +8,7 @@
   stage of the C++ (after the `fix:` commits recorded in known_findings.json).
 -/
 import LpModel.Basic
+import LpModel.C01.Constants
 namespace Lp.Interp
 
 /-- `Sign(double)` of Special_Functions.cpp -/
@@ -26,14 +27,14 @@ def pInterior (hm h sm s : Rat) : Rat := (sm * h + s * hm) / (hm + h)
 
 /-- interior limited slope `dy[i]` -/
 def dyInterior (hm h sm s : Rat) : Rat :=
-  ((sign1 sm + sign1 s : Int) : Rat) * rmin (rabs (pInterior hm h sm s) / 2) (rmin (rabs s) (rabs sm))
+  ((sign1 sm + sign1 s : Int) : Rat) * rmin (C01.K.limIntP * rabs (pInterior hm h sm s) / C01.K.limIntPDiv) (rmin (C01.K.limIntS * rabs s) (C01.K.limIntSm * rabs sm))
 
 /-- boundary slope estimate: `(h0,h1,s0,s1) = (h[0],h[1],s[0],s[1])` at the first point and
     `(h[N-2],h[N-3],s[N-2],s[N-3])` at the last one -/
-def pEdge (h0 h1 s0 s1 : Rat) : Rat := s0 * (1 + h0 / (h0 + h1)) - s1 * h0 / (h0 + h1)
+def pEdge (h0 h1 s0 s1 : Rat) : Rat := s0 * (C01.K.pEdgeOne + h0 / (h0 + h1)) - s1 * h0 / (h0 + h1)
 
 def dyEdge (h0 h1 s0 s1 : Rat) : Rat :=
-  ((sign1 (pEdge h0 h1 s0 s1) + sign1 s0 : Int) : Rat) * rmin (rabs s0) (rabs (pEdge h0 h1 s0 s1) / 2)
+  ((sign1 (pEdge h0 h1 s0 s1) + sign1 s0 : Int) : Rat) * rmin (C01.K.limEdgeS * rabs s0) (C01.K.limEdgeP * rabs (pEdge h0 h1 s0 s1))
 
 /-- `dy[i]` with the three cases of the C++ loop -/
 def dy (i : Nat) : Rat :=
@@ -41,8 +42,8 @@ def dy (i : Nat) : Rat :=
   else if i = N - 1 then dyEdge (h x (N - 2)) (h x (N - 3)) (s x y (N - 2)) (s x y (N - 3))
   else dyInterior (h x (i - 1)) (h x i) (s x y (i - 1)) (s x y i)
 
-def segA (h s dl dr : Rat) : Rat := (dl + dr - 2 * s) / (h * h)      -- `/ pow(h,2)`
-def segB (h s dl dr : Rat) : Rat := (3 * s - 2 * dl - dr) / h
+def segA (h s dl dr : Rat) : Rat := (dl + dr - C01.K.aTwo * s) / (h * h)      -- `/ pow(h,2)`
+def segB (h s dl dr : Rat) : Rat := (C01.K.bThree * s - C01.K.bTwo * dl - dr) / h
 
 def coefA (i : Nat) : Rat := segA (h x i) (s x y i) (dy N x y i) (dy N x y (i + 1))
 def coefB (i : Nat) : Rat := segB (h x i) (s x y i) (dy N x y i) (dy N x y (i + 1))
@@ -119,8 +120,8 @@ def locate (N : Nat) (x : Nat → Rat) (st : LState) (v : Rat) : Except Err (Nat
   let d1 := x (N - 1)
   let jr : Except Err Nat :=
     if v < d0 ∨ v > d1 then
-      let tl := (1 : Rat) / 100 * (x 1 - x 0)
-      let tr := (1 : Rat) / 100 * (x (N - 1) - x (N - 2))
+      let tl := C01.K.edgeTolL * (x 1 - x 0)
+      let tr := C01.K.edgeTolR * (x (N - 1) - x (N - 2))
       if rabs (v - d0) < tl then .ok 0
       else if rabs (v - d1) < tr then .ok (N - 2)
       else .error .diag
